@@ -148,7 +148,9 @@ int main(int argc, char** argv) {
             sc.family = "counting_ptr";
             sc.body = [scripts, late, common]() { body(scripts, late, common); };
             sc.bound_quick = scripts.size() == 2 ? 2 : 1;
-            sc.bound_thorough = scripts.size() == 2 ? 3 : 2;
+            // three threads with the unify script (an allocation, a copy construction and four reference-count operations
+            // per thread): bound 1 in both tiers, the two-thread scenarios with G go to bound 3 and to the unbounded exploration
+            sc.bound_thorough = scripts.size() == 2 ? 3 : (scripts.find('G') == std::string::npos ? 2 : 1);
             sc.whole = true;
             sc.horizon = 5000;
             scs.push_back(sc);
@@ -159,7 +161,8 @@ int main(int argc, char** argv) {
             sx.state_cb = &cp_state;
             sx.thorough_only = scripts.size() > 2;
             // three threads without a bound: only the shorter scripts (B and D each add ~10 scheduling points per thread)
-            if (scripts.size() <= 2 || (scripts.find('B') == std::string::npos && scripts.find('D') == std::string::npos)) scs.push_back(sx);
+            if (scripts.size() <= 2 || (scripts.find('B') == std::string::npos && scripts.find('D') == std::string::npos && scripts.find('G') == std::string::npos))
+                scs.push_back(sx);
         }
     };
     for (size_t a = 0; a < S.size(); ++a)
